@@ -17,7 +17,7 @@ pub struct Setting<L: LayoutTrait> {
     pub trace_gen: Felt,
 }
 
-fn setting<L: LayoutTrait>(pf: &ProofFile, rng: &mut SplitMix) -> Setting<L> {
+pub fn setting<L: LayoutTrait>(pf: &ProofFile, rng: &mut SplitMix) -> Setting<L> {
     let p = &pf.loaded.proof;
     let mut t = Transcript::new(rng.felt());
     let c = L::traces_commit(&mut t, &p.unsent_commitment.traces, p.config.traces.clone());
@@ -31,7 +31,7 @@ fn setting<L: LayoutTrait>(pf: &ProofFile, rng: &mut SplitMix) -> Setting<L> {
     }
 }
 
-fn comp<L: LayoutTrait>(s: &Setting<L>, pi: &PublicInput, coeffs: &[Felt]) -> Result<Felt, String> {
+pub fn comp<L: LayoutTrait>(s: &Setting<L>, pi: &PublicInput, coeffs: &[Felt]) -> Result<Felt, String> {
     match panics::catch(|| L::eval_composition_polynomial(&s.ie, pi, &s.mask, coeffs, &s.point, &s.trace_size, &s.trace_gen)) {
         Ok(Ok(v)) => Ok(v),
         Ok(Err(e)) => Err(format!("{:?}", e)),
@@ -115,6 +115,39 @@ where
         if !used {
             rep.violation(&format!("composition:{}:interaction-element-ignored:{}", layout, k),
                 &format!("{}: changing the interaction element `{}` alone does not change the composition value (the challenge is not consumed, or another one is used in its place)", layout, k),
+                json!({"kind": "layout", "layout": layout}));
+        }
+    }
+}
+
+/// Every builtin's memory segment is tied to the trace by a boundary constraint on its first address: changing
+/// `begin_addr` of one builtin segment alone must change the composition value (a constraint reading ANOTHER
+/// segment's address would leave that builtin's cells unconstrained).
+fn segment_sensitivity<L: LayoutTrait>(s: &Setting<L>, pi: &PublicInput, layout: &str, rng: &mut SplitMix, rep: &mut Report) {
+    let c = rng.felts(L::N_CONSTRAINTS);
+    let base = match comp::<L>(s, pi, &c) {
+        Ok(v) => v,
+        Err(_) => return,
+    };
+    let v0 = serde_json::to_value(pi).unwrap();
+    let n = v0["segments"].as_array().map(|a| a.len()).unwrap_or(0);
+    for i in 3..n {
+        let mut v1 = v0.clone();
+        let cur = match v1["segments"][i]["begin_addr"].as_str().and_then(|h| Felt::from_hex(h).ok()) {
+            Some(f) => f,
+            None => continue,
+        };
+        v1["segments"][i]["begin_addr"] = Value::String(fhex(&(cur + fu(12345))));
+        let pi2: PublicInput = match serde_json::from_value(v1) {
+            Ok(p) => p,
+            Err(_) => continue,
+        };
+        let used = matches!(comp::<L>(s, &pi2, &c), Ok(v) if v != base);
+        rep.eval(if used { "segment-address:consumed" } else { "segment-address:IGNORED" });
+        rep.nontrivial_case(&format!("seg|{}|{}", layout, i));
+        if !used {
+            rep.violation(&format!("composition:{}:builtin-segment-address-ignored:{}", layout, i),
+                &format!("{}: changing begin_addr of builtin segment #{} alone does not change the composition value", layout, i),
                 json!({"kind": "layout", "layout": layout}));
         }
     }
@@ -236,6 +269,7 @@ where
                 }
                 if layout != "dynamic" && k == 0 {
                     element_sensitivity::<L>(&s, pi, &layout, &mut rng, rep);
+                    segment_sensitivity::<L>(&s, pi, &layout, &mut rng, rep);
                 }
                 if layout != "dynamic" {
                     for i in &zeros {
@@ -342,6 +376,7 @@ where
         }
     };
     element_sensitivity::<L>(s, &with_mask(0x3ff), "dynamic", &mut ctx.rng(0x16ee), rep);
+    segment_sensitivity::<L>(s, &with_mask(0x3ff), "dynamic", &mut ctx.rng(0x16ef), rep);
     // Z_b: positions that vanish when only builtin b is off
     let mut owner: Vec<Option<usize>> = vec![None; all_on.len()];
     let mut overlap = false;
